@@ -1141,6 +1141,47 @@ static void build(vf::Plan &plan, const vf::Opts &o)
                    });
     }
 
+    // ---- the function objects called with C strings on either side (a C string converts to ST::string; an added heterogeneous
+    // overload must order exactly like the conversion): every ordered pair over A6^<=2 plus the perturbation alphabet
+    {
+        static const unsigned char FA[7] = {'a', 'A', 'b', '[', '{', 'Z', 0x7F};  // (a C string is validated when it becomes a string: ASCII only)
+        plan.stage("function objects with const char* on the left / on the right: all ordered pairs over {a,A,b,[,{,Z,7F}^<=2", 57 * 57,
+                   [](uint64_t i, Ctx &c) {
+                       auto mkv = [](uint64_t k) {
+                           std::string v;
+                           if (k == 0) return v;
+                           --k;
+                           if (k < 7) return std::string(1, (char)FA[k]);
+                           k -= 7;
+                           v += (char)FA[k / 7];
+                           v += (char)FA[k % 7];
+                           return v;
+                       };
+                       std::string ra = mkv(i / 57), rb = mkv(i % 57);
+                       ST::string a = ST::string::from_validated(ra.data(), ra.size()), b = ST::string::from_validated(rb.data(), rb.size());
+                       const char *za = ra.c_str(), *zb = rb.c_str();
+                       bool lt = OP(a.compare_i(b)) < 0, eq = OP(a.compare_i(b)) == 0;
+                       bool r[6] = {OP(ST::less_i()(a, zb)), OP(ST::less_i()(za, b)), OP(ST::less_i()(a, ST::string(zb))), OP(ST::equal_i()(a, zb)), OP(ST::equal_i()(za, b)), OP(ST::equal_i()(a, ST::string(zb)))};
+                       bool w[6] = {lt, lt, lt, eq, eq, eq};
+                       static const char *const N[6] = {"less_i(string, const char*)", "less_i(const char*, string)", "less_i(string, string from a C string)",
+                                                        "equal_i(string, const char*)", "equal_i(const char*, string)", "equal_i(string, string from a C string)"};
+                       val();
+                       for (int k = 0; k < 6; ++k)
+                           if (r[k] != w[k]) c.fail(strf("%s:disagrees-with-compare_i", N[k]), strf("a=%s b=%s: %d, compare_i says %d", show(ra).c_str(), show(rb).c_str(), (int)r[k], (int)w[k]));
+                       size_t h1 = OP(ST::hash_i()(za)), h2 = OP(ST::hash_i()(a)), h3 = OP(ST::hash()(za)), h4 = OP(ST::hash()(a));
+                       val();
+                       if (h1 != h2 || h3 != h4) c.fail("hash(const char*):differs-from-hash(string)", strf("a=%s", show(ra).c_str()));
+                       // (only the forms the library declares: there is no operator< with a C string on the left)
+                       bool o1 = OP(a < ST::string(zb)), o3 = OP(a == zb), o4 = OP(za == b), o5 = OP(a != zb), o6 = OP(za != b);
+                       int cs = sgn(OP(a.compare(b)));
+                       val();
+                       if (o1 != (cs < 0) || o3 != (cs == 0) || o4 != (cs == 0) || o5 != (cs != 0) || o6 != (cs != 0))
+                           c.fail("operators with const char* on either side:disagree-with-compare", strf("a=%s b=%s", show(ra).c_str(), show(rb).c_str()));
+                       if (ra != rb) c.nontrivial();
+                   },
+                   [](uint64_t i) { return strf("pair #%llu", (unsigned long long)i); });
+    }
+
     // ---- one object, successive values in the same storage
     plan.stage("reused-object: one ST::string / char_buffer overwritten in place with every value of {a,A,b,[,{,C3}^1..3 and two heap classes, "
                "each read compared with a fresh object",
